@@ -1,21 +1,23 @@
 #!/bin/bash
 # usage: tools/eval_seed.sh <dir with patch.diff + demo.py> <property id> [more property ids...]
 # Confirms a seeded change (suite still green, demo fails with / passes without) and runs the named checks against it.
+# Evidence / V- replays of these sensitivity runs go to a scratch directory (VF_OUT), never to /verif/evidence.
 D="$(realpath "$1")"; shift
 cd "$(dirname "$0")/.."
 SCR="$(mktemp -d "${TMPDIR:-/tmp}/vfseed.XXXXXX")"
 rsync -a --exclude .git --exclude '*.egg-info' --exclude __pycache__ /repo/ "$SCR/clean/"
 rsync -a "$SCR/clean/" "$SCR/patched/"
 ( cd "$SCR/patched" && patch -p1 --no-backup-if-mismatch -s < "$D/patch.diff" ) || { echo "RESULT patch-does-not-apply"; rm -rf "$SCR"; exit 3; }
+if [ -z "$SKIP_SUITE" ]; then
 echo "--- suite on patched tree"; tools/baseline.sh "$SCR/patched" | head -5; suite=$?
 ( cd "$D" && PYTHONPATH="$SCR/clean" /venv/bin/python -W ignore demo.py >"$SCR/demo_clean.log" 2>&1 ); dc=$?
 ( cd "$D" && PYTHONPATH="$SCR/patched" /venv/bin/python -W ignore demo.py >"$SCR/demo_patched.log" 2>&1 ); dp=$?
 echo "--- demo: clean exit=$dc patched exit=$dp"; tail -3 "$SCR/demo_patched.log"
+fi
 for pid in "$@"; do
   t0=$(date +%s)
-  out=$(VERIF_REPO="$SCR/patched" ./check $pid quick 2>&1); rc=$?
+  out=$(VF_OUT="$SCR/out" VERIF_REPO="$SCR/patched" ./check $pid ${TIER:-quick} 2>&1); rc=$?
   echo "--- check $pid against patched tree: rc=$rc ($(( $(date +%s)-t0 ))s)"; echo "$out" | grep -E "^detail|^VIOLATION|HARNESS" | head -3 | cut -c1-400
-  git checkout -q -- evidence/$pid.json 2>/dev/null
 done
-rm -rf "$SCR"; rm -f replays/*/V-*.json
+rm -rf "$SCR"
 echo "RESULT suite_rc=$suite demo_clean=$dc demo_patched=$dp"
